@@ -38,6 +38,9 @@ DESCRIPTION = {
     'equipment_id': 'peer', 'firmware': 'fake', 'description': 'scripted node'}
 
 ANSWERS = ['now', 'error', 'hold', 'silent', 'drop', 'update-first', 'delayed']
+# scripted only (a case fixes the fate of the n-th request; no deviation is spent on it):
+#   at-timeout   the reply arrives at the very instant the caller's 10 s time-out expires
+TIMEOUT = 10.0
 
 CALLERS = {
     'same-read': [['read', 'm:value', None], ['read', 'm:value', None]],
@@ -103,7 +106,10 @@ class NodePeer:
         w.nreq += 1
         n = w.nreq
         w.events.append(('peer-got', n, action, spec, data, w.sched.now))
-        answer = ANSWERS[w.sched.choose(len(w.answers), f'peer-answer:{action} {spec}')] if w.window else 'now'
+        if w.window and n in w.scripted:
+            answer = w.scripted[n]
+        else:
+            answer = ANSWERS[w.sched.choose(len(w.answers), f'peer-answer:{action} {spec}')] if w.window else 'now'
         rep = self.reply_for(action, spec, data, n)
         w.requests[n] = {'action': action, 'spec': spec, 'data': data, 'answer': answer, 'reply': rep}
         release = [(h + '\n').encode() for h in self.held]
@@ -117,6 +123,8 @@ class NodePeer:
             sock.deliver(b'update m:value [7.5, {"t": 2.0}]\n' + (rep + '\n').encode())
         elif answer == 'delayed':
             sock.deliver((rep + '\n').encode(), delay=2.5)
+        elif answer == 'at-timeout':
+            sock.deliver((rep + '\n').encode(), delay=TIMEOUT)
         elif answer == 'hold':
             self.held.append(rep)
             w.requests[n]['held'] = True
@@ -145,6 +153,7 @@ class World:
         self.drops = []
         self.refused = 0
         self.accept_reconnect = False
+        self.scripted = {}
 
 
 def execute(case, prefix):
@@ -158,6 +167,7 @@ def execute(case, prefix):
     fakesock.set_net(net)
     world = World(sched, ANSWERS[:case['nanswers']])
     world.accept_reconnect = bool(case.get('reconnect'))
+    world.scripted = {int(k): v for k, v in (case.get('scripted') or {}).items()}
     net.listen('node', 10767, lambda: NodePeer(world))
     out = {'results': {}, 'disconnect': None, 'retry': {}}
 
@@ -179,6 +189,8 @@ def execute(case, prefix):
 
         def caller(i, req):
             def run():
+                if case.get('delays'):
+                    schedx.vsleep(case['delays'][i])
                 t0 = sched.now
                 try:
                     rep = client.request(*req)
@@ -272,7 +284,16 @@ def judge(case, sched, x, world, out):
             cands = [n for n in mine if world.requests[n]['reply'] and world.requests[n]['reply'].split(' ', 2)[0] == action
                      and json.dumps(json.loads(world.requests[n]['reply'].split(' ', 2)[2])) == json.dumps(data)]
             if not cands:
-                viol.append(('foreign-reply', f'caller {i} {req} got {res[1]} which answers none of its requests {mine} '
+                # whose reply is it?  the late reply to a request (same key) whose caller has timed out meanwhile is a class
+                # of its own (SECoP replies carry no request id)
+                origin = [n for n, r in world.requests.items() if r['reply'] and r['reply'].split(' ', 2)[0] == action and
+                          json.dumps(json.loads(r['reply'].split(' ', 2)[2])) == json.dumps(data)]
+                owners = [j for j, q in enumerate(callers) for n in origin
+                          if (q[0], q[1], json.dumps(q[2])) == (world.requests[n]['action'], world.requests[n]['spec'],
+                                                                 json.dumps(world.requests[n]['data']))]
+                late = owners and all(results.get(j, ('?',))[0] == 'exc' and results[j][1] == 'TimeoutError' for j in owners)
+                viol.append(('foreign-reply' + (':late-reply-to-a-timed-out-request-with-the-same-key' if late else ''),
+                             f'caller {i} {req} got {res[1]} which answers none of its requests {mine} '
                                               f'(peer replies: {[world.requests[n]["reply"] for n in sorted(world.requests)]})'))
             else:
                 free = [n for n in cands if n not in used]
@@ -290,6 +311,14 @@ def judge(case, sched, x, world, out):
                                                    f'(peer got {[(e[1], e[2], e[3]) for e in world.events if e[0] == "peer-got"]})'))
             elif exc == 'TimeoutError' and mine and not disturbed and all_prompt:
                 viol.append(('answered-request-timed-out', f'caller {i} {req} timed out although the peer answered it ({answers})'))
+            elif exc == 'TimeoutError' and mine and not disturbed and len(mine) == 1 and answers == ['now'] and \
+                    [e[5] for e in world.events if e[0] == 'peer-got' and e[1] == mine[0]][0] <= t0 + TIMEOUT - 2.0:
+                # the peer answered this very request at once, well before the caller's time-out (whatever happened to
+                # other requests)
+                viol.append(('answered-request-timed-out:own-request-answered-in-time',
+                             f'caller {i} {req} timed out at {t1:g} although the peer answered its request at once at '
+                             f'{[e[5] for e in world.events if e[0] == "peer-got" and e[1] == mine[0]][0]:g} (answers to all requests: '
+                             f'{[(n, r["answer"]) for n, r in sorted(world.requests.items())]})'))
             elif exc not in ('TimeoutError', 'ConnectionError', 'HardwareError', 'ProtocolError', 'CommunicationFailedError',
                              'Full', 'ConnectionRefusedError'):
                 viol.append((f'caller-unexpected-exception:{exc}', f'caller {i} {req} ended with {exc}: {res[2]}'))
@@ -331,6 +360,13 @@ def cases(tier):
     quick = tier == 'quick'
     names = ['same-read', 'same-change', 'distinct-read', 'ping2', 'unknown+read'] if quick else list(CALLERS)
     nans = 5 if quick else len(ANSWERS)
+    free = 2 if quick else 3
+    # a reply arriving at the instant of the first caller's time-out while a second request with the same key (issued
+    # 5 s later) is parked behind it: the second caller's request is answered at once and must get its reply
+    res.append({'name': 'same-change/late-first', 'callers': CALLERS['same-change'], 'delays': [0.0, 5.0], 'scripted': {1: 'at-timeout'},
+                'shutdown': 'none', 'level': 'sync', 'bound': 2 if quick else 3, 'dev': 0, 'total': None, 'free': free, 'nanswers': nans})
+    res.append({'name': 'same-change/silent-first', 'callers': CALLERS['same-change'], 'delays': [0.0, 5.0], 'scripted': {1: 'silent'},
+                'shutdown': 'none', 'level': 'sync', 'bound': 2 if quick else 3, 'dev': 0, 'total': None, 'free': free, 'nanswers': nans})
     free = 2 if quick else 3
     for name in names:
         res.append({'name': f'{name}/sync', 'callers': CALLERS[name], 'shutdown': 'none', 'level': 'sync',
